@@ -482,6 +482,47 @@ def generated_sample(prop, n=48):
     return out
 
 
+def equivalent_sample(prop, n=48):
+    """A deterministic sample of the machine-generated behaviour-preserving rewrites (tools/eqscan.py, all kinds) of the
+    functions `prop` is anchored in, run against the check of `prop` alone: the check must stay silent on every one.
+    A measurement of the checker (thorough tier, informational), see DESIGN 10.4."""
+    tools = os.path.join(core.VERIF, "tools")
+    if tools not in sys.path:
+        sys.path.insert(0, tools)
+    import eqscan as es
+    import mutscan as ms
+
+    jobs = []
+    for rel, rs in sorted(ms.anchor_ranges().items()):
+        path = os.path.join(core.REPO, rel)
+        if not rel.endswith(".py") or not os.path.exists(path):
+            continue
+        mine = [(lo, hi) for lo, hi, p in rs if p == prop]
+        if not mine:
+            continue
+        for m in es.rewrites(rel, open(path, newline="").read(), 2, set(es.KINDS)):
+            if any(lo <= m["end"] and m["line"] <= hi for lo, hi in mine):
+                jobs.append((m, [prop]))
+    total = len(jobs)
+    if total > n:
+        step = total / float(n)
+        jobs = [jobs[int(i * step)] for i in range(n)]
+    out = {"generated_in_anchor_ranges": total, "sampled": len(jobs), "silent": 0, "false_alarms": [], "cannot_analyse": []}
+    if not jobs:
+        return out
+    with ProcessPoolExecutor(max_workers=min(16, len(jobs))) as ex:
+        res = list(ex.map(es.run_one, jobs))
+    for r in res:
+        tag = "%s:%s %s `%s`" % (r["file"].rsplit("/", 1)[-1], r["function"], r["kind"], str(r["what"])[:40])
+        if r["status"] == "silent":
+            out["silent"] += 1
+        elif r["status"] == "false-alarm":
+            out["false_alarms"].append(tag)
+        elif r["status"] == "cannot-analyse":
+            out["cannot_analyse"].append(tag)
+    return out
+
+
 def main(argv):
     t0 = time.time()
     only = [a for a in argv if not a.startswith("-")]
